@@ -216,6 +216,18 @@ theorem add_room_keeps_all (s : Pool) (h p : Nat)
     simp; exact hroom
   simp only [this, if_false]
 
+/-- re-delivery of a pooled block changes nothing (only the clock ticks): no second index
+    entry, no eviction, expiration not refreshed -/
+theorem add_present_noop (s : Pool) (h p : Nat) (o : Orphan) (hf : s.find h = some o) :
+    (s.add h p).orphans = s.orphans ∧ (s.add h p).idx = s.idx ∧ (s.add h p).limit = s.limit := by
+  unfold Pool.add; simp only
+  have hf' : ({ s with clock := s.clock + 1 } : Pool).find h = some o := by simpa [Pool.find] using hf
+  simp [hf']
+
+/-- deleting a block that is not pooled changes nothing -/
+theorem delete_absent_noop (s : Pool) (h : Nat) (hf : s.find h = none) : s.delete h = s := by
+  unfold Pool.delete; simp [hf]
+
 -- the hypotheses are satisfiable on a non-trivial pool (a test, not the theorem)
 example : let s := (Pool.init 2).run [.add 1 7, .add 2 7]
     s.find 3 = none ∧ s.orphans.length ≥ s.limit ∧ (minExp s.orphans).map (·.id) = some 1 := by decide
